@@ -49,6 +49,7 @@ package scanner
 //@ ghost field Scanner.gOpen int
 //@ ghost field Scanner.gOpenAt int
 //@ ghost field Scanner.gFree int
+//@ ghost field Scanner.gRet int
 
 //@ fn evKind(t LexemeEventType) int :=
 //@     ite(in(t, KeywordBegin, KeywordEnd), 1, ite(in(t, ParameterBegin, ParameterEnd), 2,
@@ -65,12 +66,46 @@ package scanner
 //@     ite(evIsEnd(t), s.gOpen == evKind(t) && s.gOpenAt <= i + slack(evKind(t)) && i < s.dataSize,
 //@     evIsSingle(t) && s.gOpen == 0 && s.gFree <= i && i < s.dataSize))
 
+// The pending-event queue: s.stack (at most one Begin waiting for its End) followed by s.finds.
+// gRet is the index after the last lexeme returned by Next.
+//@ opaque pred evPairOK(ds int, at LexemeEventType, ap int, bt LexemeEventType, bp int) :=
+//@     ite(evIsBegin(at),
+//@         evIsEnd(bt) && evKind(bt) == evKind(at) && ap <= bp + slack(evKind(at)) && bp < ds,
+//@         (evIsEnd(at) || evIsSingle(at)) && ap + 1 <= bp
+//@             && ite(evIsBegin(bt), bp <= ds, evIsSingle(bt) && bp < ds))
+//@ opaque pred evFirstOK(ret int, ds int, t LexemeEventType, p int) :=
+//@     ret <= p && ite(evIsBegin(t), p <= ds, evIsSingle(t) && p < ds)
+//@ opaque pred evLastLink(open int, openAt int, free int, t LexemeEventType, p int) :=
+//@     ite(evIsBegin(t), open == evKind(t) && openAt == p && free <= p,
+//@         (evIsEnd(t) || evIsSingle(t)) && open == 0 && free == p + 1)
+// element k (absolute index into the backing array) of the pending queue / of the event stack
+//@ pred queueA(s *Scanner) := len(s.stack) <= 1 && 0 <= s.gRet && 0 <= len(s.finds) && 0 <= s.finds.off
+// consecutive queued events are compatible
+//@ pred queueB(s *Scanner) := forall(k, imp(s.finds.off <= k && k + 1 < s.finds.off + len(s.finds),
+//@            evPairOK(s.dataSize, at(s.finds, k).type_, at(s.finds, k).position, at(s.finds, k+1).type_, at(s.finds, k+1).position)))
+//@ pred queueC(s *Scanner) :=
+//@     imp(len(s.stack) == 1, evIsBegin(s.stack[0].type_) && s.gRet <= s.stack[0].position && s.stack[0].position <= s.dataSize)
+//@     && imp(len(s.stack) == 1 && len(s.finds) > 0,
+//@            evPairOK(s.dataSize, s.stack[0].type_, s.stack[0].position, at(s.finds, s.finds.off).type_, at(s.finds, s.finds.off).position))
+//@     && imp(len(s.stack) == 0 && len(s.finds) > 0, evFirstOK(s.gRet, s.dataSize, at(s.finds, s.finds.off).type_, at(s.finds, s.finds.off).position))
+//@ pred queueD(s *Scanner) :=
+//@        ite(len(s.finds) > 0, evLastLink(s.gOpen, s.gOpenAt, s.gFree, at(s.finds, s.finds.off + len(s.finds) - 1).type_, at(s.finds, s.finds.off + len(s.finds) - 1).position),
+//@        ite(len(s.stack) == 1, evLastLink(s.gOpen, s.gOpenAt, s.gFree, s.stack[0].type_, s.stack[0].position),
+//@            s.gOpen == 0 && s.gRet <= s.gFree))
+//@ pred queueOK(s *Scanner) := queueA(s) && queueB(s) && queueC(s) && queueD(s)
+
 //@ func (*Scanner).foundAt(s, i, t)
 //@   property C12
 //@   requires[C01] s != nil
 //@   requires[C12,C01] emitOK(s, i, t)
+//@   requires queueOK(s) && s.finds.arr != s.stack.arr
 //@   modifies s.finds, s.finds[:]
-//@   ensures arrStable(s.finds.arr, old(s.finds.arr))
+//@   ensures arrStable(s.finds.arr, old(s.finds.arr)) && len(s.finds) == old(len(s.finds)) + 1
+//@   ensures s.finds.arr != s.stack.arr
+//@   ensures queueA(s)
+//@   ensures queueB(s)
+//@   ensures queueC(s)
+//@   ensures queueD(s)
 //@   ghost s.gOpen := ite(evIsBegin(t), evKind(t), 0)
 //@   ghost s.gOpenAt := ite(evIsBegin(t), i, old(s.gOpenAt))
 //@   ghost s.gFree := ite(evIsBegin(t), old(s.gFree), i + 1)
@@ -104,7 +139,8 @@ package scanner
 //@     stateDescriptionTextBracketsInner, stateDescriptionTextBracketsInnerNewLine, stateDescriptionText,
 //@     stateDescriptionTextNewline)
 // states whose open lexeme already contains at least one byte
-//@ pred needsBodyChar(f stepFunc) := in(f, stateParameterWoQuoted, stateSchemaClosed, stateEnumBodyClose)
+// (stateMultilineAnnotation: it is first run one byte after the byte at which the annotation was opened)
+//@ pred needsBodyChar(f stepFunc) := in(f, stateParameterWoQuoted, stateSchemaClosed, stateEnumBodyClose, stateMultilineAnnotation)
 
 // posOK(s, f, i): ghost/cursor relation that holds when non-comment state f is about to be run at index i
 //@ pred posOK(s *Scanner, f stepFunc, i int) :=
@@ -122,7 +158,9 @@ package scanner
 
 //@ pred arrStable(n int, o int) := n == o || fresh(n)
 //@ pred lexOK(l *Lexeme) := l != nil && l.file != nil && l.begin <= l.end + 1 && l.end + 1 <= len(l.file.content.data)
-//@ pred paramsOK(s *Scanner) := forall(j, imp(0 <= j && j < len(s.lastDirectiveParameters), lexOK(s.lastDirectiveParameters[j])))
+//@ pred paramsOK(s *Scanner) := 0 <= s.lastDirectiveParameters.off && forallp(j, at(s.lastDirectiveParameters, j),
+//@     imp(s.lastDirectiveParameters.off <= j && j < s.lastDirectiveParameters.off + len(s.lastDirectiveParameters),
+//@         lexOK(at(s.lastDirectiveParameters, j))))
 
 //@ func (*Scanner).isDirectiveParameterHasTypeOrAnyOrEmpty(s)
 //@   property C01
@@ -144,6 +182,7 @@ package scanner
 //@   requires imp(s.curIndex < s.dataSize, c == s.data.data[s.curIndex] && c != 0) && imp(s.curIndex == s.dataSize, c == 0)
 //@   requires stackOK(self, s.stepStack)
 //@   requires scanOK(s, self, s.curIndex)
+//@   requires queueOK(s) && s.finds.arr != s.stack.arr
 //@   modifies s.step, s.stepStack, s.stepStack[:], s.finds, s.finds[:], s.curIndex, s.gOpen, s.gOpenAt, s.gFree
 //@   ensures arrStable(s.finds.arr, old(s.finds.arr)) && arrStable(s.stepStack.arr, old(s.stepStack.arr))
 //@   ensures s.curIndex <= s.dataSize
@@ -151,6 +190,95 @@ package scanner
 //@   ensures imp(result == nil && s.curIndex < s.dataSize, scanOK(s, s.step, s.curIndex + 1))
 //@   ensures imp(result == nil && s.curIndex == s.dataSize, s.gOpen == 0 || s.gOpenAt <= s.dataSize)
 //@   ensures 0 <= s.gFree && s.gFree >= old(s.gFree)
+//@   ensures s.finds.arr != s.stack.arr
+//@   ensures queueA(s)
+//@   ensures queueB(s)
+//@   ensures queueC(s)
+//@   ensures queueD(s)
+
+// ---------------------------------------------------------------------------
+// Next and its helpers
+
+//@ pred scannerInv(s *Scanner) := s != nil && fileOK(s) && paramsOK(s) && queueOK(s) && s.finds.arr != s.stack.arr
+//@     && imp(s.curIndex <= s.dataSize, stackOK(s.step, s.stepStack) && scanOK(s, s.step, s.curIndex))
+
+//@ func NewJApiScanner(file)
+//@   property C12,C01
+//@   requires file != nil
+//@   ensures scannerInv(result) && fresh(result) && result.file == file && result.gRet == 0 && result.curIndex == 0
+
+//@ func (*Scanner).shiftFound(s)
+//@   property C12,C01
+//@   requires s != nil && len(s.finds) >= 1
+//@   modifies s.finds, s.finds[:]
+//@   ensures result.type_ == old(s.finds[0].type_) && result.position == old(s.finds[0].position)
+//@   ensures len(s.finds) == old(len(s.finds)) - 1 && s.finds.arr == old(s.finds.arr)
+//@   ensures s.finds.off == old(s.finds.off)
+//@   ensures forallp(k, at(s.finds, k).type_, imp(s.finds.off <= k && k < s.finds.off + len(s.finds),
+//@       at(s.finds, k).type_ == old(at(s.finds, k+1).type_) && at(s.finds, k).position == old(at(s.finds, k+1).position)))
+
+//@ fn lexTypeOf(t LexemeEventType) int :=
+//@     ite(evKind(t) == 1, 0, ite(evKind(t) == 2, 1, ite(evKind(t) == 3, 2, ite(evKind(t) == 4, 3, ite(evKind(t) == 5, 5,
+//@     ite(evKind(t) == 6, 8, ite(t == ContextOpen, 6, 7)))))))
+
+//@ func (*Scanner).processLexemeEvent(s, ev)
+//@   property C12,C01
+//@   requires s != nil && s.file != nil && len(s.stack) <= 1
+//@   requires ite(evIsBegin(ev.type_), len(s.stack) == 0,
+//@            ite(evIsEnd(ev.type_), len(s.stack) == 1 && evIsBegin(s.stack[0].type_) && evKind(s.stack[0].type_) == evKind(ev.type_),
+//@                evIsSingle(ev.type_)))
+//@   modifies s.stack, s.stack[:]
+//@   ensures result1 == nil && arrStable(s.stack.arr, old(s.stack.arr))
+//@   ensures imp(evIsBegin(ev.type_), result0 == nil && len(s.stack) == 1
+//@               && s.stack[0].type_ == ev.type_ && s.stack[0].position == ev.position)
+//@   ensures imp(evIsEnd(ev.type_), result0 != nil && fresh(result0) && len(s.stack) == 0 && result0.file == s.file
+//@               && result0.begin == old(s.stack[0].position) && result0.end == ev.position && result0.type_ == lexTypeOf(ev.type_))
+//@   ensures imp(evIsSingle(ev.type_), result0 != nil && fresh(result0) && len(s.stack) == old(len(s.stack)) && result0.file == s.file
+//@               && s.stack.arr == old(s.stack.arr)
+//@               && result0.begin == ev.position && result0.end == ev.position && result0.type_ == lexTypeOf(ev.type_))
+//@   ensures imp(evIsSingle(ev.type_) && len(s.stack) == 1,
+//@               s.stack[0].type_ == old(s.stack[0].type_) && s.stack[0].position == old(s.stack[0].position))
+
+//@ func (*Scanner).Next(s)
+//@   property C12,C01
+//@   requires scannerInv(s)
+//@   modifies s.step, s.stepStack, s.stepStack[:], s.finds, s.finds[:], s.stack, s.stack[:], s.curIndex,
+//@            s.lastDirectiveParameters, s.lastDirectiveParameters[:], s.gOpen, s.gOpenAt, s.gFree
+//@   ghost s.gRet := ite(result0 != nil, result0.end + 1, old(s.gRet))
+//@   ensures s != nil && fileOK(s)
+//@   ensures paramsOK(s)
+//@   ensures s.finds.arr != s.stack.arr
+//@   ensures queueA(s)
+//@   ensures queueB(s)
+//@   ensures queueC(s)
+//@   ensures queueD(s)
+//@   ensures imp(result1 == nil && s.curIndex <= s.dataSize, stackOK(s.step, s.stepStack) && scanOK(s, s.step, s.curIndex))
+//@   ensures imp(result0 != nil, result1 == nil && fresh(result0) && lexOK(result0) && result0.file == s.file
+//@               && result0.end < s.dataSize && old(s.gRet) <= result0.begin)
+//@ pred nextArrs(s *Scanner) := arrStable(s.finds.arr, old(s.finds.arr)) && arrStable(s.stack.arr, old(s.stack.arr))
+//@     && arrStable(s.stepStack.arr, old(s.stepStack.arr))
+//@     && arrStable(s.lastDirectiveParameters.arr, old(s.lastDirectiveParameters.arr))
+//@ func (*Scanner).Next loop 1
+//@   invariant s != nil && fileOK(s)
+//@   invariant paramsOK(s)
+//@   invariant s.finds.arr != s.stack.arr && nextArrs(s)
+//@   invariant queueA(s)
+//@   invariant queueB(s)
+//@   invariant queueC(s)
+//@   invariant queueD(s)
+//@   invariant imp(s.curIndex <= s.dataSize, stackOK(s.step, s.stepStack) && scanOK(s, s.step, s.curIndex))
+//@   invariant s.gRet == old(s.gRet)
+//@ func (*Scanner).Next loop 2
+//@   invariant s != nil && fileOK(s)
+//@   invariant paramsOK(s)
+//@   invariant s.finds.arr != s.stack.arr && nextArrs(s)
+//@   invariant queueA(s)
+//@   invariant queueB(s)
+//@   invariant queueC(s)
+//@   invariant queueD(s)
+//@   invariant imp(s.curIndex <= s.dataSize, stackOK(s.step, s.stepStack) && scanOK(s, s.step, s.curIndex))
+//@   invariant s.gRet == old(s.gRet)
+//@   invariant len(s.finds) + rangeindex + 1 == entry(len(s.finds))
 
 //@ ghost field jschema.JSchema.gSrcLen int
 //@ ghost field enum.Enum.gSrcLen int
